@@ -1,6 +1,6 @@
 (* C06 -- message delivery fidelity under fragmentation / segmentation. *)
 From Sonic Require Import Base.Prelude Base.ListLemmas Gen.Consts Gen.Preds Model.WsFrame Spec.FrameParser Model.WsCodec Model.Transport
-  Model.WsStream Proofs.WsCodecProofs Proofs.WsStreamProofs.
+  Model.WsStream Proofs.WsCodecProofs Proofs.WsStreamProofs Proofs.WsMessageProofs.
 Local Open Scope Z_scope.
 
 (* ReadNext / AsyncReadNext with the frame codec, over ANY segmentation of the inbound bytes by the transport (chunks of
@@ -71,3 +71,50 @@ Example C06_demo :
   run (WNextMessage 64) = [EMsg 255 0 [] eWouldBlock; ECtl 9 [9]; EMsg 1 6 [104;101;108;108;111;33] eNone] /\
   run (WAsyncNextMessage 64) = [EPending; ECtl 9 [9]; EMsg 1 6 [104;101;108;108;111;33] eNone; EPending].
 Proof. vm_compute. split; reflexivity. Qed.
+
+(* ---- whole messages.  [pseq max fs T R]: parsing the frames fs one after the other from the byte string T leaves R
+   (Spec/FrameParser.v).  [frag_seq false fs]: fs is one conforming message - a non-continuation data frame, then
+   continuation frames, FIN exactly on the last one, valid Ping/Pong frames anywhere between.  [St s]: a stream that can
+   read, on a healthy transport whose inbound queue holds data only. *)
+
+(* NextMessage / AsyncNextMessage when the message's bytes have arrived, in pieces of any size: the control callbacks in
+   order, then exactly one message - the concatenation of the fragments' payloads, the first fragment's type, no error;
+   the stream is positioned right behind the final fragment. *)
+Theorem C06_whole_message : forall (async : bool) s buflen fs R s' evs,
+  St s -> pseq (c_max (w_codec s)) fs (sstream s) R -> frag_seq false fs = true ->
+  zlen (msg_payload fs) <= buflen -> zlen (msg_payload fs) <= w_max s ->
+  wsstep s (if async then WAsyncNextMessage buflen else WNextMessage buflen) = (s', evs) ->
+  evs = msg_ctl fs ++ [EMsg (msg_type ws_TypeNone fs) (zlen (msg_payload fs)) (msg_payload fs) eNone] /\
+  St s' /\ sstream s' = R /\ w_state s' = w_state s.
+Proof. exact message_any_segmentation. Qed.
+Print Assumptions C06_whole_message.
+
+(* AsyncNextMessage issued first, then the bytes arrive in ANY pieces with the read parked in between (cuts inside
+   headers, between fragments, several frames per piece, pieces that complete nothing): the same single message. *)
+Theorem C06_async_message_any_segmentation : forall chunks s buflen fs R s' evs,
+  St s -> w_rpend s = None -> Forall bytes chunks ->
+  pseq (c_max (w_codec s)) fs (sstream s ++ concat chunks) R -> frag_seq false fs = true ->
+  zlen (msg_payload fs) <= buflen -> zlen (msg_payload fs) <= w_max s ->
+  wsrun_ev s (WAsyncNextMessage buflen :: arrivals chunks) = (s', evs) ->
+  npend evs = msg_ctl fs ++ [EMsg (msg_type ws_TypeNone fs) (zlen (msg_payload fs)) (msg_payload fs) eNone] /\
+  St s' /\ sstream s' = R /\ w_rpend s' = None /\ w_state s' = w_state s.
+Proof. exact async_message_any_segmentation. Qed.
+Print Assumptions C06_async_message_any_segmentation.
+
+(* Non-vacuity: the premises hold for the fragmented "hello!" with a Ping inside, delivered to a fresh stream in three
+   awkward pieces, and the conclusion is the concrete message. *)
+Definition demo_frames : list (list Z) := [[1; 2; 104; 101]; [137; 1; 9]; [0; 3; 108; 108; 111]; [128; 1; 33]].
+Example C06_whole_message_premises :
+  let s := ws_init 1024 [[1;2;3;4]] in
+  let chunks := [ztake 3 bytes_in; zsub 3 8 bytes_in; zdrop 8 bytes_in] in
+  St s /\ w_rpend s = None /\ Forall bytes chunks /\
+  pseq (c_max (w_codec s)) demo_frames (sstream s ++ concat chunks) [] /\ frag_seq false demo_frames = true /\
+  msg_ctl demo_frames = [ECtl 9 [9]] /\ msg_payload demo_frames = [104;101;108;108;111;33] /\
+  msg_type ws_TypeNone demo_frames = 1.
+Proof.
+  cbv zeta. destruct (St_init 1024 [[1;2;3;4]] ltac:(unfold WsFrame.two63; lia)) as (A & B & C).
+  split; [exact A|]. split; [exact B|]. split.
+  - repeat constructor; unfold is_byte; lia.
+  - split; [|vm_compute; repeat split; reflexivity].
+    rewrite C. repeat (econstructor; [vm_compute; reflexivity|]). constructor.
+Qed.
